@@ -87,11 +87,12 @@ type browser struct {
 }
 
 type histGen struct {
-	s         *hSim
-	p         profile
-	browsers  []*browser
-	oldSids   []string
-	oldStates []string
+	s                 *hSim
+	p                 profile
+	browsers          []*browser
+	oldSids           []string
+	oldStates         []string
+	afterRejectedBody bool // the previous token-endpoint answer was a 200 whose body did not decode: the next one omits what it may
 }
 
 func (g *histGen) now() time.Time { return g.s.w.rig.clock.Now() }
@@ -152,6 +153,7 @@ func (g *histGen) idpForSession(nonce string, login bool, sid string) idpAnswer 
 	if rng.Intn(3) != 0 {
 		a.Refresh = g.s.uniq("REFRESH-marker")
 	}
+	omitAll := false
 	if !login {
 		// a refresh answer may omit anything optional
 		if rng.Intn(3) == 0 {
@@ -160,11 +162,35 @@ func (g *histGen) idpForSession(nonce string, login bool, sid string) idpAnswer 
 		if rng.Intn(3) == 0 {
 			a.Refresh = ""
 		}
+		if g.afterRejectedBody && rng.Intn(2) == 0 {
+			a.Access, a.Refresh, omitAll = "", "", true // whatever a decoder kept from the rejected answer would show now
+		}
+	}
+	g.afterRejectedBody = false
+	if !login && rng.Intn(14) == 0 {
+		// a refusal sent with status 200: OAuth error members and no token members at all (or only a token_type)
+		g.s.r.Dist["idp:error-body-200"]++
+		return idpAnswer{Kind: "body", ErrBody: true, TokenType: pick(rng, []string{"", "", "Bearer"})}
+	}
+	if a.Refresh != "" && rng.Intn(6) == 0 {
+		// refresh tokens are opaque to the client: some providers issue JWTs, with or without an exp claim
+		a.Refresh = mintToken(tokSpec{Mode: "good", Exp: pick(rng, []int64{0, 0, g.now().Unix() + 86400, g.now().Unix() - 60}), Aud: "idp", Sub: "refresh", Extra: g.s.uniq("REFRESH-marker-jwt")})
+		g.s.secrets = append(g.s.secrets, a.Refresh)
+	}
+	if rng.Intn(8) == 0 {
+		spec.Azp = c.ClientID // an honest authorized-party claim next to a proper audience
 	}
 	hostile := rng.Intn(100) < g.p.Hostile
 	if hostile {
 		g.s.r.Dist["idp:hostile"]++
-		switch rng.Intn(22) {
+		switch rng.Intn(25) {
+		case 22: // the authorized party is this client, the audience is somebody else: not a token for this client
+			spec.Aud, spec.Azp = "someone-else", c.ClientID
+		case 23:
+			spec.Aud, spec.Azp = nil, c.ClientID
+		case 24: // a refusal sent with status 200: no token members at all
+			a = idpAnswer{Kind: "body", ErrBody: true, TokenType: pick(rng, []string{"", "", "Bearer"})}
+			return a
 		case 0:
 			spec.Mode = "none"
 		case 1:
@@ -219,7 +245,7 @@ func (g *histGen) idpForSession(nonce string, login bool, sid string) idpAnswer 
 		a.ID = reForge(g.s.stored[sid].IDToken, rng.Intn(3))
 		g.s.r.Dist["idp:forgery-of-own-token"]++
 	}
-	if !hostile && !login && rng.Intn(5) == 0 {
+	if !hostile && !login && (rng.Intn(5) == 0 || omitAll) {
 		a.ID = "" // refresh answers may omit the ID token
 	}
 	switch k := rng.Intn(100); {
@@ -231,7 +257,8 @@ func (g *histGen) idpForSession(nonce string, login bool, sid string) idpAnswer 
 		return idpAnswer{Kind: pick(rng, []string{"undecodable", "null"})}
 	case k < g.p.Hostile/2+g.p.Hostile/8+1:
 		// HTTP 200 whose body carries tokens but does not decode (wrong member type, truncated, trailing garbage)
-		g.s.idpTokens[a.ID], g.s.idpTokens[a.Access] = true, true
+		// (what a REJECTED answer carried was never validly received: if any of it is later bound to a session that is a violation)
+		g.afterRejectedBody = true
 		raw := pick(rng, []string{
 			fmt.Sprintf(`{"id_token":%q,"access_token":%q,"refresh_token":%q,"token_type":"Bearer","expires_in":"3600"}`, a.ID, a.Access, "REFRESH-marker-raw"),
 			fmt.Sprintf(`{"id_token":%q,"access_token":%q,"token_type":"Bearer","expires_in":36`, a.ID, a.Access),
@@ -239,7 +266,7 @@ func (g *histGen) idpForSession(nonce string, login bool, sid string) idpAnswer 
 			fmt.Sprintf(`[{"id_token":%q}]`, a.ID),
 			fmt.Sprintf(`{"id_token":%q,"expires_in":1e400}`, a.ID),
 		})
-		g.s.secrets = append(g.s.secrets, "REFRESH-marker-raw")
+		g.s.secrets = append(g.s.secrets, "REFRESH-marker-raw", a.ID, a.Access)
 		return idpAnswer{Kind: "raw", Raw: raw}
 	}
 	return a
@@ -351,7 +378,13 @@ func (g *histGen) step() {
 		}
 		k -= x
 	}
-	base := hReq{Scheme: "https", Host: "app.example.com", Gen: g.newGen(), KeysOK: rng.Intn(100) >= g.p.Faults/2, Faults: g.faults()}
+	base := hReq{Scheme: "https", Host: "app.example.com", Gen: g.newGen(), KeysOK: rng.Intn(100) >= g.p.Faults/2, Faults: g.faults(), Replica: rng.Intn(2)}
+	if rng.Intn(3) == 0 {
+		// headers a browser, a script or a proxy may add: none of them is the handler's business
+		base.Hdrs = pick(rng, []map[string]string{{"x-requested-with": "XMLHttpRequest"}, {"sec-fetch-dest": "empty", "sec-fetch-mode": "cors", "sec-fetch-site": "same-origin"},
+			{"accept": "application/json"}, {"x-forwarded-for": "10.0.0.7, 10.0.0.1", "user-agent": "Mozilla/5.0"}, {"x-request-id": pick(rng, []string{"req-1", "req-2"})},
+			{"authorization": "Bearer stolen-token"}, {"x-forwarded-proto": "http", "x-forwarded-host": "evil.example"}, {"content-type": "application/json", "origin": "https://app.example.com"}})
+	}
 	switch choice {
 	case 0: // application request with the browser's cookie
 		p, q := g.appPath()
